@@ -5,14 +5,14 @@ Deterministic in (sentence, seed, options).  No parsing logic.
 """
 
 ID_BASIC = ['a', 'b', 'c', 'd', 'e', 'f', 'g', 'h']
-ID_RICH = ['a', 'b', 'x1', '$', '$a', 'a$', '_', 'é', 'Ω', 'á',
+ID_RICH = ['a', 'b', 'x1', 'a5', '$', '$a', 'a$', '_', 'é', 'Ω', 'á',
            'of', 'let', 'undefined', 'arguments', 'getx', 'sety', 'iff', 'ins']
 IDN_BASIC = ['p', 'q', 'r']
 IDN_RICH = ['p', 'q', 'if', 'in', 'return', 'class', 'get', 'set', 'function',
             'this', 'null', 'new', 'typeof', 'do', 'instanceof', '$', 'x1']
 NUM_BASIC = ['1', '2', '3']
 NUM_RICH = ['0', '1', '42', '1.5', '.5', '1.', '1e3', '1E+5', '1e-5', '0x1F',
-            '0X0', '017', '0.0', '9']
+            '0X0', '017', '0.0', '9', '5', '10']
 STR_BASIC = ["'s'", '"t"']
 STR_RICH = ["''", '"a"', "'a\"b'", '"\\n\\t\\\\\\"\\/\\x41é"', "'\\0'",
             "'a\\\nb'", "'a\\\r\nb'", '"a\\\u2028b"', "'\\u0041'",
@@ -37,7 +37,10 @@ GAP_BREAK = {'lf': '\n', 'cr': '\r', 'crlf': '\r\n', 'ls': '\u2028',
              'lfcmt': '\n/*c*/ ', 'cmt_lf': ' /*c*/\n', 'lflf': '\n\n',
              'ffcmt': ' /*\x0c\x85*/\n', 'vtline': ' //\x0b\x1c\n',
              'cmt3': ' /* a\n b\r\n c */ ', 'cmt2lf': ' /*\n\n*/ ',
-             'cmtlsps': ' /*\u2028\u2029*/ ', 'cmtcr': ' /*\r*/ '}
+             'cmtlsps': ' /*\u2028\u2029*/ ', 'cmtcr': ' /*\r*/ ',
+             # line comments ended by each kind of line terminator
+             'linecr': ' //c\r', 'linecrlf': ' // c\r\n',
+             'linels': ' //c\u2028', 'lineps': ' //\u2029'}
 
 
 def spell(tok, k, pools):
